@@ -12,10 +12,10 @@ import (
 
 	sdk "github.com/cosmos/cosmos-sdk/types"
 	"github.com/medibloc/panacea-core/v2/app"
-	didkeeper "github.com/medibloc/panacea-core/v2/x/did/keeper"
-	didtypes "github.com/medibloc/panacea-core/v2/x/did/types"
 	aolkeeper "github.com/medibloc/panacea-core/v2/x/aol/keeper"
 	aoltypes "github.com/medibloc/panacea-core/v2/x/aol/types"
+	didkeeper "github.com/medibloc/panacea-core/v2/x/did/keeper"
+	didtypes "github.com/medibloc/panacea-core/v2/x/did/types"
 )
 
 type aolGenCase struct {
@@ -44,6 +44,24 @@ func aolGenCases() []aolGenCase {
 		{"writer-without-topic", func(o, w string) aoltypes.GenesisState {
 			return aoltypes.GenesisState{Owners: map[string]*aoltypes.Owner{}, Topics: map[string]*aoltypes.Topic{},
 				Writers: map[string]*aoltypes.Writer{o + "/t/" + w: wr}, Records: map[string]*aoltypes.Record{}}
+		}},
+		{"record-at-the-counter-with-a-gap-below", func(o, w string) aoltypes.GenesisState { // offsets {0,2}, the counter says 2
+			return aoltypes.GenesisState{Owners: map[string]*aoltypes.Owner{o: {TotalTopics: 1}},
+				Topics:  map[string]*aoltypes.Topic{o + "/t": {TotalRecords: 2, TotalWriters: 1}},
+				Writers: map[string]*aoltypes.Writer{o + "/t/" + w: wr},
+				Records: map[string]*aoltypes.Record{o + "/t/0": rec(w), o + "/t/2": rec(w)}}
+		}},
+		{"records-above-a-gap", func(o, w string) aoltypes.GenesisState { // offsets {1,2}, the counter says 2
+			return aoltypes.GenesisState{Owners: map[string]*aoltypes.Owner{o: {TotalTopics: 1}},
+				Topics:  map[string]*aoltypes.Topic{o + "/t": {TotalRecords: 2, TotalWriters: 1}},
+				Writers: map[string]*aoltypes.Writer{o + "/t/" + w: wr},
+				Records: map[string]*aoltypes.Record{o + "/t/1": rec(w), o + "/t/2": rec(w)}}
+		}},
+		{"record-far-beyond-the-counter", func(o, w string) aoltypes.GenesisState { // offsets {0,5}, the counter says 2
+			return aoltypes.GenesisState{Owners: map[string]*aoltypes.Owner{o: {TotalTopics: 1}},
+				Topics:  map[string]*aoltypes.Topic{o + "/t": {TotalRecords: 2, TotalWriters: 1}},
+				Writers: map[string]*aoltypes.Writer{o + "/t/" + w: wr},
+				Records: map[string]*aoltypes.Record{o + "/t/0": rec(w), o + "/t/5": rec(w)}}
 		}},
 		{"counters-above-contents", func(o, w string) aoltypes.GenesisState {
 			return aoltypes.GenesisState{Owners: map[string]*aoltypes.Owner{o: {TotalTopics: 5}},
@@ -99,27 +117,58 @@ func monAolGenesisConsistency(s *Stream, prop string) {
 				}
 				return strings.Join(bad, "; ")
 			}
+			tk := aoltypes.TopicCompositeKey{OwnerAddress: oa, TopicName: "t"}
+			stored := func() map[uint64]string {
+				out := map[uint64]string{}
+				keys, recs := k.GetAllRecords(c.DeliverCtx())
+				for i, rk := range keys {
+					if rk.OwnerAddress.Equals(oa) && rk.TopicName == "t" {
+						out[rk.Offset] = string(recs[i].Key) + "\x00" + string(recs[i].Value)
+					}
+				}
+				return out
+			}
+			recordCount := func() string {
+				if !k.HasTopic(c.DeliverCtx(), tk) {
+					return ""
+				}
+				if t, n := k.GetTopic(c.DeliverCtx(), tk), len(stored()); t.TotalRecords != uint64(n) {
+					return fmt.Sprintf("topic reports %d records, %d stored", t.TotalRecords, n)
+				}
+				return ""
+			}
 			if prop == "c13" {
 				if b := counts(); b != "" {
 					return "fail #reported-numbers-differ-from-contents " + b
 				}
-				return "pass"
+				if b := recordCount(); b != "" {
+					return "fail #reported-numbers-differ-from-contents " + b
+				}
 			}
-			// C01: whatever the genesis put at an offset stays; appends report the number of records held before
-			old, errOld := k.Record(g, &aoltypes.QueryRecordRequest{OwnerAddress: o, TopicName: "t", Offset: 0})
-			for i := 0; i < 2; i++ {
+			// C01: whatever the genesis put at an offset stays; an append reports an offset nobody held.  C13: after every
+			// append the reported number of records is still the number stored
+			before := stored()
+			for i := 0; i < 3; i++ {
+				held := stored()
 				r, err := ms.AddRecord(g, &aoltypes.MsgAddRecordRequest{TopicName: "t", Key: []byte(fmt.Sprintf("k%d", i)), Value: []byte("v"), WriterAddress: w, OwnerAddress: o})
 				if err != nil {
 					continue
 				}
-				if errOld == nil && r.Offset == 0 {
+				if _, was := held[r.Offset]; was && prop == "c01" {
 					return "fail #append-reused-the-offset-of-an-existing-record"
 				}
+				if prop == "c13" {
+					if b := recordCount(); b != "" {
+						return "fail #reported-numbers-differ-from-contents after an append: " + b
+					}
+				}
 			}
-			if errOld == nil {
-				now, err := k.Record(g, &aoltypes.QueryRecordRequest{OwnerAddress: o, TopicName: "t", Offset: 0})
-				if err != nil || string(now.Record.Key) != string(old.Record.Key) || string(now.Record.Value) != string(old.Record.Value) {
-					return "fail #record-of-the-genesis-was-replaced"
+			if prop == "c01" {
+				now := stored()
+				for off, v := range before {
+					if now[off] != v {
+						return "fail #record-of-the-genesis-was-replaced"
+					}
 				}
 			}
 			return "pass"
